@@ -466,7 +466,7 @@ class Gen2:
             tree = conv(mkbinary(op, ('p', t, k), e), t)
             return [('p%d %s= %s;' % (k, CSYM[op], ctext(src)), '(set %d %s %s)' % (k, t, sx(tree)))]
         if x < 0.84 and self.level != 'A':
-            ini = [k for k in av if k in self.init and self.vtys[k] != 'b']
+            ini = [k for k in av if k in self.init]
             if ini:
                 k = r.choice(ini)
                 inc = r.random() < 0.5
